@@ -255,6 +255,38 @@ theorem c04_awaited_child_alive {prog : Nat → List Act} {nExt : Nat} {s : Stat
   · intro hd; have := (hi.bound_done j f hj hd).1; rw [hnr] at this; cases this
   · intro ops; exact bk_run s ops hi j f hj
 
+/-- **The bound party is notified before the frame dies.**  `final_awaiter` resolves the bound future first and destroys
+the frame afterwards: whenever a frame has been destroyed at its final suspend point, the bound future was already resolved at
+that moment (`notifiedAtFree = some true`; no frame that is not `done` carries the mark).  In particular when the frame's
+arguments are the last owner of the bound future (an operation object holding the result future and a completion callback,
+`isOp`), the callback has been called — exactly once — before the operation dies with the frame. -/
+theorem c04_notified_before_frame_dies {prog : Nat → List Act} {nExt : Nat} {s : State} (h : Reachable prog nExt s) (c : Nat) :
+    ((s.co c).st = St.done → (s.co c).notifiedAtFree = some true
+        ∧ ∀ f, (s.co c).bound = some f → (s.fut f).isOp = true → (s.fut f).cbCalls = 1 ∧ (s.fut f).cb = false)
+    ∧ ((s.co c).st ≠ St.done → (s.co c).notifiedAtFree = none) := by
+  have hi := reachable_inv h
+  have hcb : CbInv s := by
+    obtain ⟨ops, rfl⟩ := h
+    exact cb_run _ ops (cb_init prog nExt)
+  have hn := (hi.co_ok c).notif
+  constructor
+  · intro hd
+    refine ⟨by rw [hn]; simp [hd], ?_⟩
+    intro f hf hop
+    have hr := (hi.bound_done c f hf hd).1
+    obtain ⟨h1, h2⟩ := hcb f
+    rw [hop, hr] at h1 h2
+    exact ⟨by simpa using h1, by simpa using h2⟩
+  · intro hd; rw [hn]; simp [hd]
+
+/-- a completion callback is called at most once over the whole run, exactly when its future gets resolved; futures without
+a callback never call one -/
+theorem c04_callback_once {prog : Nat → List Act} {nExt : Nat} {s : State} (h : Reachable prog nExt s) (f : Nat) :
+    (s.fut f).cbCalls = (if (s.fut f).isOp && (s.fut f).ready then 1 else 0)
+    ∧ (s.fut f).cb = ((s.fut f).isOp && !(s.fut f).ready) := by
+  obtain ⟨ops, rfl⟩ := h
+  exact cb_run _ ops (cb_init prog nExt) f
+
 /-- **Progress.**  A started coroutine that has not finished can always either take a step or is suspended on a future
 that is not resolved yet — it is never stranded in a state nobody will move (the executor's ordering is C05's business). -/
 theorem c04_progress {prog : Nat → List Act} {nExt : Nat} {s : State} (h : Reachable prog nExt s) (c : Nat)
@@ -301,6 +333,27 @@ example : ((run (init demoProg 1) demoOps).co 1).outcome = some (Outcome.val 22)
     ∧ ((run (init demoProg 1) demoOps).co 4).st = St.dropped
     ∧ ((run (init demoProg 1) demoOps).co 5).st = St.unstarted
     ∧ ((run (init demoProg 1) demoOps).co 1).wakes = 1 := by decide
+
+/-- coroutine 1 is started bound to the result future of an operation object that its own frame owns (`start 1 true`),
+suspends on external future 0, the driver resolves it, the coroutine consumes the value -/
+def opProg : Nat → List Act
+  | 1 => [Act.awaitFut 0 true, Act.ret 5]
+  | _ => []
+def opOps : List Op :=
+  [Op.create 1, Op.start 1 true, Op.step 1, Op.step 1, Op.step 1, Op.setF 0 (Outcome.val 7), Op.step 1]
+
+/-- the code as it is: resolve, then destroy — callback called once, frame died notified -/
+example : ((run (init opProg 1) (opOps ++ [Op.step 1])).co 1).notifiedAtFree = some true
+    ∧ ((run (init opProg 1) (opOps ++ [Op.step 1])).fut 1).cbCalls = 1
+    ∧ ((run (init opProg 1) (opOps ++ [Op.step 1])).fut 1).out = some (Outcome.val 12) := by decide
+
+/-- The seeded variant that destroys the frame *before* `resolve()` (`finishDestroyFirst`) violates the property on exactly
+this program: the operation — and the pending future in it — dies with the frame, the callback is never called, the result
+reaches nobody (replayed on the headers by corpus/c04_opfuture.txt). -/
+theorem c04_destroy_first_violates :
+    ((finishDestroyFirst (run (init opProg 1) opOps) 1 (Outcome.val 12)).co 1).notifiedAtFree = some false
+    ∧ ((finishDestroyFirst (run (init opProg 1) opOps) 1 (Outcome.val 12)).fut 1).cbCalls = 0
+    ∧ ((finishDestroyFirst (run (init opProg 1) opOps) 1 (Outcome.val 12)).fut 1).ready = false := by decide
 
 end Cocls.Async
 
